@@ -36,15 +36,26 @@ def mad(v):
     return median([abs(float(x) - m) for x in v])
 
 
-def sigma_clip(v, sigma, maxiters):
+def sigma_clip(v, sigma, maxiters, info=None):
     """Documented astropy SigmaClip with cenfunc='median', stdfunc='std':
     repeat {keep median - sigma*std <= x <= median + sigma*std} until nothing is
-    rejected or ``maxiters`` iterations were done."""
+    rejected or ``maxiters`` iterations were done.
+
+    ``info`` (dict, optional): ``info['margin']`` is lowered to the smallest
+    distance |x - bound| between any pixel and any clipping bound that was
+    evaluated (every iteration, including the last one that rejects nothing):
+    the keep/reject decisions are stable under perturbations of the bounds
+    smaller than that.  A sample of ONE value does not contribute: its median
+    is the value and its std is exactly 0 in any arithmetic, so it is kept
+    whatever is added to or multiplied with it."""
     v = np.asarray(v, dtype=float)
     it = 0
     while v.size and (maxiters is None or it < maxiters):
         it += 1
         c, s = median(v), std(v)
+        if info is not None and v.size > 1:      # one value: median == value, std == 0 exactly, kept at any offset/scale
+            m = float(min(np.min(np.abs(v - (c - sigma * s))), np.min(np.abs(v - (c + sigma * s)))))
+            info['margin'] = min(info.get('margin', math.inf), m)
         keep = (v >= c - sigma * s) & (v <= c + sigma * s)
         if keep.all():
             break
@@ -71,6 +82,17 @@ def est_sextractor(v):
     if abs(mn - md) / sd >= 0.3:
         return md
     return 2.5 * md - 1.5 * mn
+
+
+def sextractor_branch_margin(v):
+    """| |mean - median| - 0.3 std |: how far (in data units) the sample is from
+    the SExtractor estimator's median / 2.5 median - 1.5 mean switch (inf when
+    std == 0: one value, where the branch is taken identically at any offset
+    or scale)."""
+    md, mn, sd = median(v), mean(v), std(v)
+    if sd == 0:
+        return math.inf
+    return abs(abs(mn - md) - 0.3 * sd)
 
 
 def est_biweight_location(v, c=6.0):
@@ -143,7 +165,11 @@ def included(ngood, box_npix, exclude_percentile):
 
 def reference_mesh(data, good, box, edge, exclude_percentile, clip, bkg_name, rms_name):
     """-> dict with arrays (mesh shape): bkg, rms (NaN where excluded), npix
-    (good pixels after clipping), incl (bool), boundary (bool), nclipped."""
+    (good pixels after clipping), incl (bool), boundary (bool), nclipped, and the
+    two scalars that say how well-posed the discontinuous steps are on this
+    input: clip_margin (smallest |pixel - clipping bound| over all boxes and
+    iterations; inf without clipping) and branch_margin (smallest distance of a
+    box from the SExtractor branch switch; inf for the other estimators)."""
     data = np.asarray(data, dtype=float)
     my, mx = mesh_shape(data.shape, box, edge)
     by, bx = box
@@ -152,12 +178,15 @@ def reference_mesh(data, good, box, edge, exclude_percentile, clip, bkg_name, rm
     out['incl'] = np.zeros((my, mx), dtype=bool)
     out['boundary'] = np.zeros((my, mx), dtype=bool)
     out['nclipped'] = 0
+    out['clip_margin'] = math.inf
+    out['branch_margin'] = math.inf
+    info = {}
     for j in range(my):
         for i in range(mx):
             sl = (slice(j * by, (j + 1) * by), slice(i * bx, (i + 1) * bx))   # numpy truncates: the partial box
             vals = data[sl][good[sl]]
             if clip is not None and vals.size:
-                kept = sigma_clip(vals, clip[0], clip[1])
+                kept = sigma_clip(vals, clip[0], clip[1], info)
                 out['nclipped'] += vals.size - kept.size
                 vals = kept
             out['npix'][j, i] = vals.size
@@ -168,6 +197,9 @@ def reference_mesh(data, good, box, edge, exclude_percentile, clip, bkg_name, rm
                 # values are reported for boundary boxes whichever way they are judged
                 out['bkg'][j, i] = BKG[bkg_name](vals)
                 out['rms'][j, i] = RMS[rms_name](vals)
+                if bkg_name == 'SExtractor':
+                    out['branch_margin'] = min(out['branch_margin'], sextractor_branch_margin(vals))
+    out['clip_margin'] = info.get('margin', math.inf)
     return out
 
 
